@@ -19,6 +19,9 @@ import (
 const modulePath = "github.com/centrifugal/centrifuge"
 
 type World struct {
+	globalErrOK map[*ssa.Global]bool
+	globalMapCache map[*ssa.Global][]mapLitEntry
+	globalMapOK    map[*ssa.Global]bool
 	repo      string
 	fset      *token.FileSet
 	pkgs      []*packages.Package
@@ -306,6 +309,143 @@ func (w *World) lookupContract(g *Gen, c *ssa.CallCommon, name string) (*FuncCon
 // globalInit: a package-level variable of string or []byte type whose only assignment in the whole program is
 // its constant initialiser (in the package's init function) and whose address is never taken otherwise is
 // effectively a constant. Returns its literal value.
+// globalMapInit: for a package-level map variable that is assigned exactly once (in init, from a map literal with
+// constant keys and values) and whose loaded value is only ever used for lookups and len, the literal's entries.
+type mapLitEntry struct{ K, V *ssa.Const }
+
+func (w *World) globalMapInit(gl *ssa.Global) ([]mapLitEntry, bool) {
+	if w.globalMapCache == nil {
+		w.globalMapCache = map[*ssa.Global][]mapLitEntry{}
+		w.globalMapOK = map[*ssa.Global]bool{}
+	}
+	if ok, done := w.globalMapOK[gl]; done {
+		return w.globalMapCache[gl], ok
+	}
+	w.globalMapOK[gl] = false
+	if _, isMap := gl.Type().Underlying().(*types.Pointer).Elem().Underlying().(*types.Map); !isMap {
+		return nil, false
+	}
+	var mk *ssa.MakeMap
+	stores := 0
+	for fn := range ssautil.AllFunctions(w.prog) {
+		for _, b := range fn.Blocks {
+			for _, in := range b.Instrs {
+				switch x := in.(type) {
+				case *ssa.Store:
+					if x.Addr == gl {
+						stores++
+						m, ok := x.Val.(*ssa.MakeMap)
+						if !ok || fn.Name() != "init" {
+							return nil, false
+						}
+						mk = m
+					} else if x.Val == ssa.Value(gl) {
+						return nil, false
+					}
+				case *ssa.UnOp:
+					if x.X == gl {
+						// the loaded map may only be looked up or measured
+						for _, ref := range *x.Referrers() {
+							switch r := ref.(type) {
+							case *ssa.Lookup:
+								if r.X != ssa.Value(x) {
+									return nil, false
+								}
+							case *ssa.DebugRef:
+							case *ssa.Call:
+								if bi, ok := r.Call.Value.(*ssa.Builtin); !ok || bi.Name() != "len" {
+									return nil, false
+								}
+							default:
+								return nil, false
+							}
+						}
+					}
+				default:
+					for _, op := range in.Operands(nil) {
+						if op != nil && *op == ssa.Value(gl) {
+							return nil, false
+						}
+					}
+				}
+			}
+		}
+	}
+	if mk == nil || stores != 1 {
+		return nil, false
+	}
+	var es []mapLitEntry
+	for _, ref := range *mk.Referrers() {
+		switch r := ref.(type) {
+		case *ssa.MapUpdate:
+			k, ok1 := r.Key.(*ssa.Const)
+			v, ok2 := r.Value.(*ssa.Const)
+			if !ok1 || !ok2 || r.Map != ssa.Value(mk) {
+				return nil, false
+			}
+			es = append(es, mapLitEntry{k, v})
+		case *ssa.Store:
+			if r.Addr != ssa.Value(gl) {
+				return nil, false
+			}
+		case *ssa.DebugRef:
+		default:
+			return nil, false
+		}
+	}
+	w.globalMapCache[gl] = es
+	w.globalMapOK[gl] = true
+	return es, true
+}
+
+// globalNonNilErr: a package-level error variable assigned exactly once, in init, from errors.New / fmt.Errorf or
+// the address of a composite literal, and never reassigned: its value is a fixed non-nil error.
+func (w *World) globalNonNilErr(gl *ssa.Global) bool {
+	if w.globalErrOK == nil {
+		w.globalErrOK = map[*ssa.Global]bool{}
+	}
+	if ok, done := w.globalErrOK[gl]; done {
+		return ok
+	}
+	w.globalErrOK[gl] = false
+	stores := 0
+	good := false
+	for fn := range ssautil.AllFunctions(w.prog) {
+		for _, b := range fn.Blocks {
+			for _, in := range b.Instrs {
+				switch x := in.(type) {
+				case *ssa.Store:
+					if x.Addr == gl {
+						stores++
+						if fn.Name() != "init" {
+							return false
+						}
+						switch v := x.Val.(type) {
+						case *ssa.Call:
+							if f, ok := v.Call.Value.(*ssa.Function); ok && (f.String() == "errors.New" || f.String() == "fmt.Errorf") {
+								good = true
+							}
+						case *ssa.MakeInterface:
+							if _, ok := v.X.(*ssa.Alloc); ok {
+								good = true
+							}
+						}
+					}
+				case *ssa.UnOp:
+				default:
+					for _, op := range in.Operands(nil) {
+						if op != nil && *op == ssa.Value(gl) {
+							return false
+						}
+					}
+				}
+			}
+		}
+	}
+	w.globalErrOK[gl] = good && stores == 1
+	return w.globalErrOK[gl]
+}
+
 func (w *World) globalInit(gl *ssa.Global) (string, bool) {
 	if w.globalCache == nil {
 		w.globalCache = map[*ssa.Global]*string{}
